@@ -152,7 +152,7 @@ def origins(body, start, opaque=None, follow_workspace=False, max_nodes=20000, s
                 add_local(e["idx"])
         l = p["l"]
         # field-sensitive step for tuple / struct temporaries: `_t.1` follows only operand 1 of `_t = (a, b)`
-        if p["p"] and isinstance(p["p"][0], dict) and "f" in p["p"][0] and "upvar_of" not in p["p"][0] \
+        if p["p"] and isinstance(p["p"][0], dict) and "f" in p["p"][0] and ("upvar_of" not in p["p"][0] or l > body.arg_count) \
                 and not (1 <= l <= body.arg_count) and _only_agg_defs(body, l):
             key = (l, p["p"][0]["f"])
             if key not in seen:
